@@ -274,3 +274,12 @@ REGISTRY["C02"]["theorems"] += T("Proofs.C02c", "BLDFM.C02", ["recip_core", "bg_
 REGISTRY["C02"]["partial_clauses"] = ["single-precision storage rounding (both reciprocity identities are theorems through the whole model pipeline over exact arithmetic)"]
 REGISTRY["C09"]["theorems"] += T("Proofs.C09b", "BLDFM.C09", ["psi_unstable_eq", "Fxi_deriv", "psi_deriv_unstable", "psi_deriv_stable", "psi_continuousAt_zero", "phi_continuousAt_zero"])
 REGISTRY["C09"]["partial_clauses"] = [c for c in REGISTRY["C09"]["partial_clauses"] if not c.startswith("psi' =")]
+WITNESS = T("Proofs.Lemmas.Witness", "BLDFM.Witness", ["wreq_geomOK", "wreq_denOK"], "lemma")
+REGISTRY["C06"]["theorems"] += T("Proofs.C06b", "BLDFM.C06", ["sum_shift_periodic", "dft_shift", "srcSpectrum_shift", "tower_shift_field",
+                                                               "source_shift_field", "padSrc_roll_of_periodic"]) + REPR + WITNESS
+REGISTRY["C06"]["partial_clauses"] = ["float rounding", "tower shift and source shift are theorems through the whole model pipeline (tower_shift_field, source_shift_field); "
+                                      "the point-reflection clause is the reciprocity theorem of C02 composed with them (not assembled separately; oracle)"]
+REGISTRY["C11"]["theorems"] += T("Proofs.C11b", "BLDFM.C11", ["lowpass_coef", "sfreq_embed", "lowpass_component"]) + WITNESS
+REGISTRY["C03"]["theorems"] += T("Proofs.C03c", "BLDFM.C03", ["pp_padSrc", "halo_eq_padding_fields", "halo_eq_padding", "padOf_pair"]) + WITNESS
+REGISTRY["C03"]["partial_clauses"] = ["float rounding (all three clauses are theorems over exact arithmetic through the whole model pipeline; "
+                                      "halo == padding needs the same dx, i.e. xmx' = xmx + 2 px dx exactly, which floats only approximate)"]
